@@ -5,7 +5,7 @@ from __future__ import annotations
 import ast
 
 from ..core.cfg import CFG
-from ..core.repo import (AnalysisError, Repo, call_name, calls_in, definitions, dotted, func_params, is_const,
+from ..core.repo import (AnalysisError, Repo, inline_self_calls, call_name, calls_in, definitions, dotted, func_params, is_const,
                          kwarg, names_in, unparse, walk_no_nested_defs)
 from ..domains.algnf import NotArithmetic, Rat, from_ast
 
@@ -69,7 +69,37 @@ def _partition_idiom(fn: ast.AST):
         if len(ys) != 1:
             return "more than one yield in the loop"
         return (X, S)
-    return "no yielding loop"
+    return None  # no yielding loop here: not this idiom (the caller may follow a delegation)
+
+
+def _partition_of(repo, cls_q: str, fn: ast.AST, depth: int = 0):
+    """_partition_idiom, following `yield from self.h(X)` / `return self.h(X)` into the generator helper h of the same class."""
+    r = _partition_idiom(fn)
+    if r is not None or depth > 2:
+        return r
+    for n in walk_no_nested_defs(fn):
+        c = None
+        if isinstance(n, ast.Expr) and isinstance(n.value, ast.YieldFrom):
+            c = n.value.value
+        elif isinstance(n, ast.Return) and isinstance(n.value, ast.Call):
+            c = n.value
+        if isinstance(c, ast.Call) and isinstance(c.func, ast.Attribute) and isinstance(c.func.value, ast.Name) and c.func.value.id == "self" and len(c.args) == 1 \
+                and repo.has(f"{cls_q}.{c.func.attr}"):
+            _, h = repo.func(f"{cls_q}.{c.func.attr}")
+            hp = [a.arg for a in h.args.args if a.arg != "self"]
+            inner = _partition_of(repo, cls_q, h, depth + 1)
+            if isinstance(inner, tuple) and len(hp) == 1:
+                X, S = inner
+                return (unparse(c.args[0]) if X == hp[0] else X, S)
+            if isinstance(inner, str):
+                return inner
+    # nested generator returned by the function (def _gen(): …; return _gen())
+    for n in ast.walk(fn):
+        if isinstance(n, ast.FunctionDef) and n is not fn:
+            inner = _partition_idiom(n)
+            if inner is not None:
+                return inner
+    return None
 
 
 def run(check, repo: Repo) -> None:
@@ -85,7 +115,9 @@ def run(check, repo: Repo) -> None:
     _, iv_fn = repo.func(f"{PU}:SimpleBatcher.iter_val")
     res = {}
     for label, fn in (("__iter__", it_fn), ("iter_val", iv_fn)):
-        r = _partition_idiom(fn)
+        r = _partition_of(repo, f"{PU}:SimpleBatcher", fn)
+        if r is None:
+            raise AnalysisError(f"SimpleBatcher.{label}: batch iteration idiom (strided slices of one sequence, directly or through a generator helper) not recognised")
         res[label] = r
         check.decide(isinstance(r, tuple), "C09-R1", f"SimpleBatcher.{label}: strided-slice partition (every item exactly once)",
                      str(r), mod.line(fn), fail_detail=f"SimpleBatcher.{label}: {r}")
@@ -156,10 +188,16 @@ def run(check, repo: Repo) -> None:
     # ---- R2 reported length ---------------------------------------------------------------------
     for label, X in (("__len__", "self.train_indices"), ("val_len", "self.val_indices")):
         _, fn = repo.func(f"{PU}:SimpleBatcher.{label}")
-        ok = False
-        for c in calls_in(fn):
-            if call_name(c) in ("ceil", "math.ceil", "np.ceil") and c.args and isinstance(c.args[0], ast.BinOp) and isinstance(c.args[0].op, ast.Div):
-                ok = unparse(c.args[0].left) == f"len({X})" and unparse(c.args[0].right) == "self.batch_size"
+        ok, seen_ceil = False, False
+        rets_ = [n.value for n in walk_no_nested_defs(fn) if isinstance(n, ast.Return) and n.value is not None]
+        for r_ in rets_:
+            r_ = inline_self_calls(repo, f"{PU}:SimpleBatcher", r_)  # look through one-line helpers (self._num_chunks(n))
+            for c in [x for x in ast.walk(r_) if isinstance(x, ast.Call)]:
+                if call_name(c) in ("ceil", "math.ceil", "np.ceil") and c.args and isinstance(c.args[0], ast.BinOp) and isinstance(c.args[0].op, ast.Div):
+                    seen_ceil = True
+                    ok = unparse(c.args[0].left) == f"len({X})" and unparse(c.args[0].right) == "self.batch_size"
+        if not seen_ceil:
+            raise AnalysisError(f"SimpleBatcher.{label}: the reported length is not a recognised ceil(len / size) expression")
         check.decide(ok, "C09-R2", f"SimpleBatcher.{label} = ceil(len({X.split('.')[1]}) / batch_size)", "", mod.line(fn),
                      fail_detail=f"{label} is not ceil(len({X}) / self.batch_size): the reported number of batches differs from the number yielded")
 
@@ -196,7 +234,7 @@ def run(check, repo: Repo) -> None:
         verdict, why = _complementary(init, tv, vv, later_is_val=cfg.nodes.index(vn) > cfg.nodes.index(tn) if False else vn.stmt.lineno > tn.stmt.lineno)
         if verdict is None:
             raise AnalysisError(f"C09-R3: split construction not recognised in {label}: {why}")
-        check.decide(verdict, "C09-R3", f"{label}: train and validation sets are disjoint and cover all patterns", why, mod.line(tn.stmt),
+        check.decide(verdict, "C09-R3", f"{label}: train and validation sets are disjoint and cover all patterns", why, mod.line(tn.stmt), definite=True,
                      fail_detail=f"{why}: some patterns are in neither set (never visited) or in both")
 
     # ---- R4 seeded randomness -------------------------------------------------------------------
